@@ -168,7 +168,9 @@ def run_case(ctx):
     nboxes = [len(b) for b in m.boxes]
     keys = []
     for n, plan in enumerate(plans):
-        tree = os.path.join(ctx.scratch, f"t{n}")
+        # every damaged tree takes the SAME path in turn (anything remembered per path is stale then)
+        tree = os.path.join(ctx.scratch, "tree")
+        shutil.rmtree(tree, ignore_errors=True)
         shutil.copytree(master, tree)
         descs = []
         for op, args in plan:
